@@ -44,8 +44,6 @@ def Ordered : List Instr → List Lock → Prop
   | .work :: rest, held => Ordered rest held
   | .getOrInsert _ :: rest, held => Lock.templates ∈ held ∧ Ordered rest held
 
-def holders (ts : List Thread) (l : Lock) : List Thread := ts.filter (fun t => decide (l ∈ t.held))
-
 /-- thread `t` can take its next step in `s` -/
 def Enabled (ts : List Thread) (t : Thread) : Prop :=
   match t.prog with
@@ -84,10 +82,11 @@ inductive Step (compute : Nat → Nat) : LState → LState → Prop where
 
 def WF (ts : List Thread) : Prop := ∀ t ∈ ts, Ordered t.prog t.held
 
-/-- at most one thread holds a given lock, and holds it once -/
-def Excl (ts : List Thread) : Prop :=
-  ∀ l, (∀ i j t u, ts[i]? = some t → ts[j]? = some u → l ∈ t.held → l ∈ u.held → i = j)
-     ∧ (∀ t ∈ ts, (t.held.filter (· == l)).length ≤ 1)
+/-- how many times lock `l` is held, over all threads -/
+def countHeld (ts : List Thread) (l : Lock) : Nat := (ts.map (fun t => t.held.count l)).sum
+
+/-- mutual exclusion: a lock is held at most once, by at most one thread -/
+def Excl (ts : List Thread) : Prop := ∀ l, countHeld ts l ≤ 1
 
 def CacheOK (compute : Nat → Nat) (cache : List (Nat × Nat)) : Prop := ∀ k v, (k, v) ∈ cache → v = compute k
 
@@ -101,8 +100,9 @@ def Finished (ts : List Thread) : Prop := ∀ t ∈ ts, t.prog = []
 
 /-- `get_symbol_for`: entry cache, then library cache; both released on return -/
 def progGetSymbol : List Instr := [.acq .entry, .acq .library, .work, .rel .library, .rel .entry]
-/-- `new_internal` for key `k`: template lock, get-or-insert (negotiation inside), release -/
-def progNewInternal (k : Nat) : List Instr := [.acq .templates, .getOrInsert k, .rel .templates, .work]
+/-- `new_internal` for key `k`: template lock, get-or-insert (negotiation inside), instance creation (the guard
+    lives to the end of the function), release -/
+def progNewInternal (k : Nat) : List Instr := [.acq .templates, .getOrInsert k, .work, .rel .templates]
 /-- `load_shared_library` -/
 def progLoadLibrary (k : Nat) : List Instr := progGetSymbol ++ progNewInternal k
 /-- a method call whose arguments make the implementation create `n` further connections (closures, boxed
